@@ -428,7 +428,12 @@ pub fn addi(
 
     // get operands
     let dst = get_register(detail.operands[0].reg())?.scalar();
-    let lhs = get_register(detail.operands[1].reg())?.expression();
+    // (rA|0): register 0 as the base operand means the literal 0
+    let lhs = if detail.operands[1].reg() == capstone::ppc_reg::PPC_REG_R0 {
+        expr_const(0, 32)
+    } else {
+        get_register(detail.operands[1].reg())?.expression()
+    };
     let rhs = expr_const(detail.operands[2].imm() as u64, 32);
 
     let block_index = {
@@ -454,7 +459,12 @@ pub fn addis(
 
     // get operands
     let dst = get_register(detail.operands[0].reg())?.scalar();
-    let lhs = get_register(detail.operands[1].reg())?.expression();
+    // (rA|0): register 0 as the base operand means the literal 0
+    let lhs = if detail.operands[1].reg() == capstone::ppc_reg::PPC_REG_R0 {
+        expr_const(0, 32)
+    } else {
+        get_register(detail.operands[1].reg())?.expression()
+    };
     let rhs = expr_const((detail.operands[2].imm() as u64) << 16, 32);
 
     let block_index = {
